@@ -164,7 +164,7 @@ def make_case(d, sp, rs, ls, reqs, rnd, adapter_kind):
     else:
         lines = [["p"] + r for r in rs] + [[gk] + l for gk, l in ls]
         ad = adapter_F(lines) if adapter_kind == "F" else adapter_S(lines)
-    steps = [Q_e(r) for r in reqs] + ["?ga:p", "?ga:g"]
+    steps = [(Q_e(r) if rnd.random() < 0.9 else Q_em(r)) for r in reqs] + ["?ga:p", "?ga:g"]
     return case("eng", sp, ad, "-", steps)
 
 
